@@ -157,9 +157,11 @@ def run_job(job):
                 ev["out"], ev["exc"] = conv(out), exc
             elif name == "Batch":
                 fn = with_ctx(mod.FNS[op["f"]], op["c"])
-                if op.get("how") == "map":
+                if op.get("how") in ("map", "map_iter"):
                     def thunk():
-                        d = fn.map_over_range(a=list(op["args"]))
+                        # map_iter: the range is a one-shot iterable (a generator), not a list
+                        rng_ = (x for x in list(op["args"])) if op.get("how") == "map_iter" else list(op["args"])
+                        d = fn.map_over_range(a=rng_)
                         return ["L", [conv(d[x]) for x in op["args"]]]
                 else:
                     def thunk():
